@@ -10,18 +10,18 @@ Open Scope Z_scope.
    a.incn in all three resolvers and none of the classes applies *)
 Example C14_nonvacuous :
   let i := I KFrom false 0 [10] in
-  k_multi i = false /\ k_modonly wfs [100] i = false /\ k_underflow wfs [] true [100] i = false /\
+  k_multi i = false /\ k_modonly wfs [100] i = false /\
   k_mr_only wfs [] true [100] i = false /\
   rip wfs [100] i = Some (P [100] 10 Incn) /\
   option_map fst (cli_resolve wfs [] true [100] i) = Some (P [100] 10 Incn).
 Proof. vm_compute. repeat split; reflexivity. Qed.
 
 (* P1  the CLI and the LSP (shared resolver) pick the same file for every import that stands in the
-       entry's directory, outside the three listed classes *)
+       entry's directory, outside the two listed classes — however the entry path was spelled
+       ([cwd], [ab], [b]: working directory, absolute?, spelled directory) *)
 Theorem C14_resolvers_agree : forall fs cwd ab b i,
   k_multi i = false ->
   k_modonly fs (rl cwd ab b) i = false ->
-  k_underflow fs cwd ab b i = false ->
   option_map fst (cli_resolve fs cwd ab b i) = rip fs (rl cwd ab b) i.
 Proof. exact cli_lsp_agree. Qed.
 Print Assumptions C14_resolvers_agree.
@@ -37,11 +37,16 @@ Theorem C14_resolvers_agree_modfile_refuted : exists fs b i,
 Proof. exists wfs, [100], (I KFrom false 0 [12]). vm_compute. repeat split; discriminate. Qed.
 Print Assumptions C14_resolvers_agree_modfile_refuted.
 
-Theorem C14_resolvers_agree_relative_refuted : exists fs cwd b i,
-  k_multi i = false /\ k_modonly fs (rl cwd false b) i = false /\ k_underflow fs cwd false b i = true /\
-  option_map fst (cli_resolve fs cwd false b i) <> rip fs (rl cwd false b) i.
-Proof. exists wfs, [100; 20], [], (I KFrom false 1 [10]). vm_compute. repeat split; discriminate. Qed.
-Print Assumptions C14_resolvers_agree_relative_refuted.
+(* regression witness for the repaired relative-entry defect: `cd sub; incan --check main.incn` with
+   `from ..a import x` now finds <root>/a.incn exactly as the absolute invocation and the LSP do;
+   in general the spelling of the entry path is irrelevant *)
+Theorem C14_relative_entry_regression :
+  option_map fst (cli_resolve wfs [100; 20] false [] (I KFrom false 1 [10])) = Some (P [100] 10 Incn) /\
+  rip wfs [100; 20] (I KFrom false 1 [10]) = Some (P [100] 10 Incn) /\
+  (forall fs cwd ab b i, cli_resolve fs cwd ab b i = cli_resolve fs [] true (rl cwd ab b) i) /\
+  (forall fs cwd ab b i, mr_resolve fs cwd ab b i = mr_resolve fs [] true (rl cwd ab b) i).
+Proof. split; [vm_compute; reflexivity|]. split; [vm_compute; reflexivity|]. split; intros; reflexivity. Qed.
+Print Assumptions C14_relative_entry_regression.
 
 (* the CLI resolves an import of a nested file against the ENTRY's directory, the LSP against the
    importing file's directory *)
@@ -71,11 +76,10 @@ Proof. exact lsp_meets_spec. Qed.
 Print Assumptions C14_lsp_meets_spec.
 
 (*     ... and the CLI implements it for imports that stand in the entry's directory, outside the
-       mod-file and relative-entry classes ([as_from i] = the import rewritten as `from <module> import ..`) *)
+       mod-file class ([as_from i] = the import rewritten as `from <module> import ..`) *)
 Theorem C14_cli_meets_spec : forall fs cwd ab b d i,
   k_nested (rl cwd ab b) d = false ->
   k_modonly fs d (I KFrom (iabs i) (ilevels i) (msegs i)) = false ->
-  k_underflow fs cwd ab b i = false ->
   option_map fst (cli_resolve fs cwd ab b i) = spec_resolve fs d i.
 Proof. exact cli_meets_spec. Qed.
 Print Assumptions C14_cli_meets_spec.
@@ -126,10 +130,20 @@ Print Assumptions C14_collect_terminates.
 Theorem C14_cycle_diagnosed_refuted :
   cli_collect (fuel_of cyc_fs) cyc_fs cyc_imps [] true [100] 10 Incn
     = Done [(P [100] 11 Incn, [11]); (P [100] 10 Incn, [MAIN])] /\
-  lsp_collect (fuel_of cyc_fs) cyc_fs cyc_imps (P [100] 10 Incn) = Done [P [100] 11 Incn; P [100] 10 Incn] /\
+  lsp_collect (fuel_of cyc_fs) cyc_fs cyc_imps (P [100] 10 Incn) = Done [P [100] 11 Incn] /\
   mc_collect (fuel_of cyc_fs) cyc_fs cyc_imps (P [100] 10 Incn) = Failed 2 (P [100] 10 Incn).
 Proof. vm_compute. repeat split; reflexivity. Qed.
 Print Assumptions C14_cycle_diagnosed_refuted.
+
+(* regression for the repaired LSP defect: the entry is never one of its own dependencies, cycle
+   through the entry or not (on [cyc_fs] the result above is [b], it used to be [b; a]) *)
+Theorem C14_lsp_entry_not_dependency : forall fs imps entry fuel r,
+  lsp_collect fuel fs imps entry = Done r -> ~ In entry r.
+Proof.
+  intros fs imps entry fuel r H Hin. apply (lsp_collect_reach fs imps entry fuel r H entry) in Hin.
+  destruct Hin as [_ Hne]. exact (Hne eq_refl).
+Qed.
+Print Assumptions C14_lsp_entry_not_dependency.
 
 (* P6  visibility.  `from m import x` of a module that was loaded under the name the checker looks
        up: x not exported by m (not a pub declaration, not a variant of a pub enum) => rejected *)
@@ -184,7 +198,7 @@ Print Assumptions C14_only_imported_names_visible_refuted.
 
 (* P7  what the work lists compute: exactly the files reachable from the entry through the
        respective resolver (CLI: resolver based at the entry directory, reflexive closure;
-       LSP: shared resolver based at each importing file's directory, at least one step) *)
+       LSP: shared resolver based at each importing file's directory, at least one step, entry excluded) *)
 Theorem C14_collectors_compute_reachable : forall fs imps cwd ab b stem e fuel,
   (forall rc, cli_collect fuel fs imps cwd ab b stem e = Done rc ->
      forall q, In q (map fst rc) <->
@@ -193,7 +207,7 @@ Theorem C14_collectors_compute_reachable : forall fs imps cwd ab b stem e fuel,
   (forall rl_, lsp_collect fuel fs imps (P (rl cwd ab b) stem e) = Done rl_ ->
      forall q, In q rl_ <->
                reach1 (fun p q => exists i, In i (imps p) /\ rip fs (pdir p) i = Some q)
-                      (P (rl cwd ab b) stem e) q).
+                      (P (rl cwd ab b) stem e) q /\ q <> P (rl cwd ab b) stem e).
 Proof.
   intros. split; intros r H.
   - exact (cli_collect_reach fs imps cwd ab b stem e fuel r H).
@@ -202,18 +216,17 @@ Qed.
 Print Assumptions C14_collectors_compute_reachable.
 
 (* P8  whole projects: if every file that contains imports lies in the entry's directory and no
-       import is in one of the three classes, the CLI and the LSP load exactly the same
-       dependency files (with fuel |fs|+1 both finish, by P5) *)
+       import is in one of the two classes, the LSP's dependencies are exactly the CLI's modules
+       other than the entry (with fuel |fs|+1 both finish, by P5) *)
 Theorem C14_collect_agree : forall fs imps cwd ab b stem e fuel rc rl_,
   (forall p i, In i (imps p) ->
-     pdir p = rl cwd ab b /\ k_multi i = false /\ k_modonly fs (rl cwd ab b) i = false /\
-     k_underflow fs cwd ab b i = false) ->
+     pdir p = rl cwd ab b /\ k_multi i = false /\ k_modonly fs (rl cwd ab b) i = false) ->
   cli_collect fuel fs imps cwd ab b stem e = Done rc ->
   lsp_collect fuel fs imps (P (rl cwd ab b) stem e) = Done rl_ ->
-  forall q, q <> P (rl cwd ab b) stem e -> (In q (map fst rc) <-> In q rl_).
+  forall q, In q rl_ <-> In q (map fst rc) /\ q <> P (rl cwd ab b) stem e.
 Proof.
   intros fs imps cwd ab b stem e fuel rc rl_ H. apply collect_agree.
-  intros p i Hi. destruct (H p i Hi) as [Hd [H1 [H2 H3]]]. rewrite Hd. apply cli_lsp_agree; assumption.
+  intros p i Hi. destruct (H p i Hi) as [Hd [H1 H2]]. rewrite Hd. apply cli_lsp_agree; assumption.
 Qed.
 Print Assumptions C14_collect_agree.
 
@@ -222,6 +235,5 @@ Example C14_collect_agree_nonvacuous :
   cli_collect (fuel_of flat_fs) flat_fs flat_imps [] true [100] 10 Incn
     = Done [(P [100] 12 Incn, [12]); (P [100] 11 Incn, [11]); (P [100] 10 Incn, [MAIN])] /\
   lsp_collect (fuel_of flat_fs) flat_fs flat_imps (P [100] 10 Incn) = Done [P [100] 11 Incn; P [100] 12 Incn] /\
-  forallb (fun p => forallb (fun i => negb (k_multi i) && negb (k_modonly flat_fs [100] i) && negb (k_underflow flat_fs [] true [100] i))
-                            (flat_imps p)) (files flat_fs) = true.
+  forallb (fun p => forallb (fun i => negb (k_multi i) && negb (k_modonly flat_fs [100] i)) (flat_imps p)) (files flat_fs) = true.
 Proof. vm_compute. repeat split; reflexivity. Qed.
